@@ -717,7 +717,7 @@ func c01MergeDriver(c *Ctx, r *Rng) {
 
 // c08Extension: the filters with a pointer extension configured (lfs.extension.<n>.clean/smudge/priority).
 // Content must round-trip through the extension pair; a pointer handed to clean must pass through
-// unchanged without anything being stored (D20: with an extension clean never sniffs for a pointer).
+// unchanged without anything being stored (D20, repaired: with an extension clean did not sniff for a pointer).
 func c08Extension(c *Ctx, prop string, r *Rng) {
 	for round := 0; round < 3; round++ {
 		c08ExtensionKind(c, prop, NewRng(r.U64()), round)
